@@ -92,8 +92,8 @@ impl Prop for C05 {
 
     fn gen_cases(&self, tier: Tier) -> u64 {
         match tier {
-            Tier::Quick => 120_000,
-            Tier::Thorough => 4_000_000,
+            Tier::Quick => 300_000,
+            Tier::Thorough => 6_000_000,
         }
     }
 
@@ -272,8 +272,8 @@ impl Prop for C18 {
 
     fn gen_cases(&self, tier: Tier) -> u64 {
         match tier {
-            Tier::Quick => 40_000,
-            Tier::Thorough => 1_000_000,
+            Tier::Quick => 120_000,
+            Tier::Thorough => 2_000_000,
         }
     }
 
